@@ -10,6 +10,7 @@ pub fn main_loop(run: fn(&str, &[String]) -> String) {
     let stdin = std::io::stdin();
     let stdout = std::io::stdout();
     let mut out = std::io::BufWriter::new(stdout.lock());
+    let fresh = std::env::var("TFH_FRESH_THREAD").map(|v| v == "1").unwrap_or(false);
     for line in stdin.lock().lines() {
         let line = line.unwrap();
         let line = line.trim();
@@ -20,8 +21,19 @@ pub fn main_loop(run: fn(&str, &[String]) -> String) {
         let id = it.next().unwrap().to_string();
         let op = it.next().unwrap_or("").to_string();
         let args: Vec<String> = it.map(|s| s.to_string()).collect();
-        let res = panic::catch_unwind(move || run(&op, &args));
-        let res = res.unwrap_or_else(|_| "PANIC".to_string());
+        // TFH_FRESH_THREAD=1: every case runs in a thread of its own, so that thread-local state of the library (caches,
+        // memo cells, scratch buffers) is in its INITIAL condition for each case; the default single-thread loop covers the
+        // opposite situation (state left behind by the preceding cases)
+        let res = if fresh {
+            std::thread::Builder::new()
+                .stack_size(512 << 20)
+                .spawn(move || panic::catch_unwind(move || run(&op, &args)).unwrap_or_else(|_| "PANIC".to_string()))
+                .unwrap()
+                .join()
+                .unwrap_or_else(|_| "PANIC".to_string())
+        } else {
+            panic::catch_unwind(move || run(&op, &args)).unwrap_or_else(|_| "PANIC".to_string())
+        };
         writeln!(out, "{} {}", id, res).unwrap();
         out.flush().unwrap();
     }
